@@ -80,7 +80,8 @@ def gen_args(rng, tag):
     if tag == "SplitCase":
         return ([] if rng.random() < 0.3 else [rng.choice([" ", "_", "-", "\\1", "\\g<0>", "\\", "é", "ab", "\\n", ""])]), {}
     if tag == "Remove":
-        pats = [rng.choice(["a", "\\d+", "[aeiou]", "^x", " +", "(", "é"]) for _ in range(rng.randint(0, 3))]
+        pats = [rng.choice(["a", "\\d+", "[aeiou]", "^x", " +", "(", "é", "(?i)b", "_+$", "(a)\\1", "(?:x|y)+", "b|c", "^", "$"])
+                for _ in range(rng.randint(0, 3))]
         return pats, ({"ignore_case": True} if rng.random() < 0.3 else {})
     if tag == "Replace":
         return [rng.choice(["a", "\\d+", "(b)(c)", " ", "^"]), rng.choice(["", "X", "\\1", "-"])], {}
@@ -240,6 +241,13 @@ def oracle_text_tags(case, obs):
         i = ctx.find(out)
         if any(c not in chars for c in ctx[:i] + ctx[i + len(out):]) and out:
             return f"Strip({chars!r}) removed other characters: {ctx!r} -> {out!r}"
+    elif tag == "Remove":
+        # each pattern is removed in turn (the second sees what the first left), every pattern on its own terms
+        want = ctx
+        for pat in a:
+            want = re.sub(pat, "", want, flags=re.IGNORECASE if k.get("ignore_case") else 0)
+        if out != want:
+            return f"Remove{a}{k} of {ctx!r} gives {out!r}, removing the patterns one after the other gives {want!r}"
     elif tag == "Collapse":
         chars = a[0] if a else " "
         if any(x in chars and y in chars for x, y in zip(out, out[1:])):
